@@ -310,6 +310,50 @@ func checkC19(c *Ctx) {
 	}
 	c.Check(rangesEvents, "R19.4", "config.DetectDeviceConfigChanges/range-events", c.P.Pos(worker.Pos()), "the loop is `for event := range watcher.Events` (ends when the watcher is closed)", "the event loop does not range over watcher.Events")
 
+	// R19.6 the loader only reads: a directory the loader (re)creates after the watcher was set up is loaded but never watched
+	for _, name := range []string{"LoadDeviceConfigs", "loadDirectory"} {
+		lf := c.P.Func(pkgConfig, "", name)
+		if lf == nil {
+			c.Undec("R19.6", "anchor:config."+name, "-", "function not found")
+			continue
+		}
+		seen := map[*ssa.Function]bool{}
+		bad := ""
+		var walk func(f *ssa.Function)
+		walk = func(f *ssa.Function) {
+			if seen[f] || len(f.Blocks) == 0 {
+				return
+			}
+			seen[f] = true
+			for _, b := range f.Blocks {
+				for _, in := range b.Instrs {
+					ci, ok := in.(ssa.CallInstruction)
+					if !ok {
+						continue
+					}
+					callee := ci.Common().StaticCallee()
+					if callee == nil {
+						continue
+					}
+					if callee.Pkg != nil && callee.Pkg.Pkg.Path() == "os" {
+						switch callee.Name() {
+						case "Mkdir", "MkdirAll", "Create", "WriteFile", "Remove", "RemoveAll", "Rename", "Symlink", "Link":
+							bad = "os." + callee.Name() + " at " + c.P.Pos(in.Pos())
+						}
+					}
+					if c.P.OwnedFunc(callee) {
+						walk(callee)
+					}
+				}
+			}
+			for _, af := range f.AnonFuncs {
+				walk(af)
+			}
+		}
+		walk(lf)
+		c.Check(bad == "", "R19.6", "config."+name+"/read-only", c.P.Pos(lf.Pos()), "the loader changes nothing in the configuration tree",
+			"the loader changes the configuration tree ("+bad+"): a directory created after the watcher was set up is loaded on every reload but was never watched, so edits there go unnoticed")
+	}
 	// R19.5 consumer
 	ruleChangeConsumer(c, change)
 	c.MinCount("R19.1", 1)
